@@ -82,6 +82,10 @@ B('C05.zoneless-date-stays-naive', ['C05'], [(P + 'common/parse.py', "          
 B('C05.date-fraction-kept', ['C05'], [(P + 'common/parse.py', "            date_time = date_time.replace(microsecond=0)\n", "")], mention='fraction')
 N('benign.date-normalised-in-two-steps', [(P + 'common/parse.py', "            if date_time.tzinfo is None:\n                date_time = date_time.replace(tzinfo=dateutil.tz.UTC)\n            else:\n                date_time = date_time.astimezone(dateutil.tz.UTC)\n            date_time = date_time.replace(microsecond=0)\n", "            if date_time.tzinfo is None:\n                date_time = date_time.replace(tzinfo=dateutil.tz.UTC)\n            date_time = date_time.astimezone(dateutil.tz.UTC).replace(microsecond=0)\n")])
 B('C05.json-seconds-keep-their-fraction', ['C05'], [(P + 'common/field.py', "        return cls(datetime.timedelta(seconds=int(time_delta.total_seconds())))\n", "        return cls(time_delta)\n")], mention='C05.R12')
+B('C05.dns-label-limit-off-by-one', ['C05'], [(P + 'dnsrec/record.py', "parser.parsed_length - label_offset - 1 > 63 or", "parser.parsed_length - label_offset - 1 > 64 or")], mention='long-label')
+B('C08.dns-label-limit-too-strict', ['C01', 'C08'], [(P + 'dnsrec/record.py', "parser.parsed_length - label_offset - 1 > 63 or", "parser.parsed_length - label_offset - 1 >= 63 or")])
+N('benign.dns-label-limit-by-length-octet', [(P + 'dnsrec/record.py', "            if parser.parsed_length - label_offset - 1 > 63 or '.' in label:", "            if six.indexbytes(parsable, label_offset) >= 64 or label.find('.') >= 0:")])
+B('C02.dns-label-octet-read-before-it-is-known-to-exist', ['C02'], [(P + 'dnsrec/record.py', "            label_offset = parser.parsed_length\n            parser.parse_string('label', 1, encoding='idna')\n", "            label_offset = parser.parsed_length\n            if six.indexbytes(parsable, label_offset) >= 64:\n                raise InvalidValue(parsable, cls, 'labels')\n            parser.parse_string('label', 1, encoding='idna')\n")], mention='indexbytes')
 B('C02.unsupported-width', ['C02'], [(P + 'tls/extension.py', "        parser.parse_numeric('record_size_limit', 2)", "        parser.parse_numeric('record_size_limit', 5)")], props=['C02'])
 B('C02.raw-index', ['C02'], [(P + 'tls/extension.py', "        if parser['extension_data']:\n            raise InvalidValue(parser['extension_data'], cls)",
                              "        if parser['extension_data'][0]:\n            raise InvalidValue(parser['extension_data'], cls)")])
